@@ -34,7 +34,9 @@ LEVEL_NOTE = ("trusts the layout table in pvf/ref/of10_layout.py (written from t
               "encode/decode consistency); flow-mod wildcard bits of fields a switch ignores are compared modulo POX's "
               "documented normalisation; ofp_flow_mod.data 'magic' is not generated")
 RULE = ("a case is one codec object given as a JSON fragment {kind, fields} plus bytes placed before and after its encoding "
-        "(or such an object plus a change applied after a first pack(), or the name of one specification constant); "
+        "(or such an object plus a change applied after a first pack(), or a pair of objects of one class where the bytes of "
+        "the second are decoded into the first, or the name of one specification constant); cases flagged 'retry' also make "
+        "pack()/unpack() fail once (a field or action not filled in, truncated buffers) and retry on the same object; "
         "cases come from an exhaustive grid (per kind: the default object, every integer field at 0 / max / sign bit, all "
         "fields at max, text fields empty and at full width, ofp_match fields one at a time with prerequisites, size classes "
         "> 32 KiB and at the 64 KiB limit) and from Hypothesis (boundary-biased integers, 0..6 actions, 0..4 list entries, "
@@ -59,6 +61,11 @@ ASSUMPTIONS = [
   "nx_reg_load.dst, == between decoded and original object is not demanded (bytes, consumed length and fields are)",
   "an object whose pack() raises is judged further on the bytes the reference table prescribes for it (decode clauses only)",
   "objects are mutable: one that was packed once and then changed by attribute assignment / list append must encode its new state",
+  "unpack(raw, offset) on an existing instance is public API: an object that was packed / measured / decoded into before and "
+  "then decodes other bytes must be indistinguishable from a fresh decode of those bytes",
+  "a pack() that failed because a field or an action was not filled in yet (None), and an unpack() that failed on a truncated "
+  "buffer, leave the object usable: the retry with good input behaves like a fresh object (None in xid / buffer_id / "
+  "total_len / type / an output action's port are documented values, not transient errors, and are not used as the fault)",
 ]
 EXHAUSTIVE_SCOPE = {
   "quick": "per kind (22 messages, 13 actions, 14 statistics bodies, 3 queue properties, packet queue, phy port, match, "
@@ -66,7 +73,10 @@ EXHAUSTIVE_SCOPE = {
            "default; all integer fields at max; text fields empty / full width; every ofp_match field alone (with its "
            "prerequisites) at 0 / max / sign bit in plain and flow-mod mode; every NXM field with and without mask at "
            "0 / all-ones / sign bit; each container at > 32 KiB and at the largest size that fits 65535 octets; every scalar "
-           "field and list of every OF 1.0 message changed after a first pack(); 176 enum / macro values of openflow.h",
+           "field and list of every OF 1.0 message changed after a first pack(); 176 enum / macro values of openflow.h; per kind "
+           "all ordered pairs of up to 6 grid objects (8 sizes for statistics messages) of equal and different encoded size, "
+           "the second decoded into the first (three decodes in a row); retry after a failed pack / truncated unpack on every "
+           "grid object",
   "thorough": "as quick (the grid is the same; the thorough tier adds Hypothesis volume)",
 }
 
@@ -582,6 +592,8 @@ def _check_object(out, case):
     ok, l2 = _try(out, "len", lambda: len(o2))
     if ok and l2 != len(b):
       out.fail("len", "len(decoded %s) is %d, %d octets" % (kind, l2, len(b)), cls=kind)
+  if case.get("retry") and packed_ok and not out.violations:
+    _check_retry(out, kind, cat, frag, obj, b, mode)
 
 
 def _check_inconsistent_match(out, obj, b, mode):
@@ -653,6 +665,187 @@ def _check_change(out, case):
                                                          _hexdiff(b, exp)), cls=kind, field=fields[0] if fields else "?")
 
 
+def _unpack_into(kind, cat, obj, buf, off, n, mode):
+  """The public instance unpack(): decode n octets at buf[off:] INTO an existing object.  -> consumed"""
+  if cat in ("message", "nx-message"):
+    newoff, length = obj.unpack(buf, off)
+    if length != n:
+      return ("length", length)
+    return newoff - off
+  if cat == "stats-body":
+    return obj.unpack(buf, off, n) - off
+  if kind == "ofp_match":
+    return obj.unpack(buf, off, flow_mod=(mode == "flow_mod")) - off
+  if kind == "nx_match":
+    return obj.unpack(buf, off, n) - off
+  if kind == "nxm_entry":
+    return None                      # entries have no instance unpack
+  return obj.unpack(buf, off) - off   # actions, queue properties, packet queue, phy port
+
+
+def _pack_of(kind, obj, mode):
+  return obj.pack(flow_mod=(mode == "flow_mod")) if kind == "ofp_match" else obj.pack()
+
+
+def _same_as_fresh(out, clause, kind, cat, obj, bts, mode, what, **extra):
+  """obj (decoded into, or retried on) must be indistinguishable from a fresh decode of the same bytes."""
+  ok, r = _try(out, "unpack", lambda: _decode(kind, cat, obj, bts, 0, len(bts), mode))
+  if not ok or isinstance(r[1], list) or r[0] != len(bts):
+    return                                # the plain round-trip clauses report that
+  fresh = r[1]
+  problems = []
+  ok, eq = _try(out, "eq", lambda: ((obj == fresh), (fresh == obj), (obj != fresh)))
+  if ok and eq != (True, True, False):
+    problems.append("compares (==, reflected ==, !=) = %s to a fresh decode of the same bytes" % (eq,))
+  try:
+    ok, fo = _try(out, "attributes", lambda: (G.fields_of(obj, kind), G.fields_of(fresh, kind)))
+    if ok and fo[0] != fo[1]:
+      fld = _first_diff(fo[0], fo[1])
+      problems.append("attribute %s is %s, a fresh decode has %s" % (fld, _short(fo[0].get(fld) if isinstance(fo[0], dict) else fo[0], 120),
+                                                                      _short(fo[1].get(fld) if isinstance(fo[1], dict) else fo[1], 120)))
+  except (AttributeError, TypeError, ValueError, KeyError, IndexError, struct.error, R.RefError) as e:
+    problems.append("attributes cannot be read back: %r" % (e,))
+  ok, b2 = _try(out, clause + ":pack", lambda: _pack_of(kind, obj, mode))
+  if ok and b2 != bts:
+    problems.append("re-encodes differently: %s" % _hexdiff(b2, bts))
+  ok, l2 = _try(out, clause + ":len", lambda: len(obj))
+  if ok and l2 != len(bts):
+    problems.append("len() is %d for %d octets" % (l2, len(bts)))
+  if problems:
+    out.fail(clause, "%s, %s: %s" % (kind, what, "; ".join(problems)), cls=kind, **extra)
+
+
+def _check_pair(out, case):
+  """Decode into a dirty object.  unpack(raw, offset) on an existing instance is public API (a dispatcher that keeps
+  one scratch message): an object A that has already been packed / measured / decoded into, and then decodes the
+  bytes of B, must afterwards be B -- equal to a fresh decode, same attributes, same re-encoding, same len()."""
+  fa, fb = case["dirty"], case["frag"]
+  kind = fb["k"]
+  if fa["k"] != kind:
+    raise HarnessError("pair case with two kinds")
+  cat = _category(kind)
+  mode = case.get("mode", "plain")
+  out.label("kind:" + kind, "cat:dirty-decode")
+  if cat in ("nxm", "nx-message", "nx-action") and _nx is None:
+    return
+  try:
+    ea, eb = G.wire(fa), G.wire(fb)
+  except (R.RefError, ValueError, KeyError) as e:
+    raise HarnessError("pair case outside the reference domain: %r for %s" % (e, _short(case)))
+  out.nontrivial = ea != eb
+  out.label("pair:" + ("same" if ea == eb else "equal-size" if len(ea) == len(eb) else "different-size"))
+  a = _guard(out, "construct", lambda: G.build(fa))
+  bobj = _guard(out, "construct", lambda: G.build(fb))
+  ba = _guard(out, "pack", lambda: _pack_of(kind, a, mode))
+  bb = _guard(out, "pack", lambda: _pack_of(kind, bobj, mode))
+  _guard(out, "len", lambda: len(a))
+  _try(out, "eq", lambda: a == bobj)          # comparisons may cache too
+  if kind == "ofp_match" and not (R.match_consistent(G.complete(fa)["f"]) and R.match_consistent(G.complete(fb)["f"])):
+    out.label("pair:inconsistent-match-skipped")
+    return
+  pre = case.get("pre", b"") or b""
+  for step, bts in (("packed object decodes another", bb), ("then decodes its first bytes again", ba),
+                    ("then the other once more", bb)):
+    buf = pre + bts + b"\xff\xfe"
+    ok, consumed = _try(out, "dirty-decode:unpack", lambda: _unpack_into(kind, cat, a, buf, len(pre), len(bts), mode))
+    if not ok or consumed is None:
+      return
+    if consumed != len(bts):
+      out.fail("dirty-decode", "%s, %s: unpack() into an existing object consumed / reported %r for %d octets" % (
+          kind, step, consumed, len(bts)), cls=kind, aspect="consumed")
+      return
+    _same_as_fresh(out, "dirty-decode", kind, cat, a, bts, mode, step, aspect="state")
+    if out.violations:
+      return
+
+
+# None is a documented value of these, not a transient error (and an output action without port is "not to the
+# controller", which legitimately zeroes max_len)
+_NO_NULL = {"xid", "buffer_id", "total_len", "type", "port"}
+
+
+def _check_retry(out, kind, cat, frag, obj, b, mode):
+  """Retry after failure.  A pack() that failed for a transient, caller-fixable reason (a field or an action not
+  filled in yet) and an unpack() that failed on a buffer that was not complete yet must leave the object usable:
+  the retry with good input behaves exactly like a fresh object."""
+  if kind == "nxm_entry":
+    return
+  out.label("retry-checked")
+  # ---- unpack: truncated buffers first, then the complete one, into the same object
+  ok, tgt = _try(out, "construct", lambda: type(obj)() if kind not in ("ofp_action_dl_addr", "ofp_action_nw_addr",
+                                                                       "ofp_action_tp_port") else G.build(frag))
+  if ok:
+    cuts = sorted({t for t in (len(b) - 1, len(b) - 4, (len(b) + 8) // 2, 4, len(b) - 8) if 0 < t < len(b)}, reverse=True)
+    failed = 0
+    for t in cuts:
+      try:
+        _unpack_into(kind, cat, tgt, b[:t], 0, len(b), mode)
+      except Exception as e:
+        if _in_harness(e):
+          raise
+        failed += 1
+    if failed:
+      out.label("retry:unpack-after-%d-truncated" % min(failed, 3))
+    ok, consumed = _try(out, "retry-after-failure:unpack", lambda: _unpack_into(kind, cat, tgt, b, 0, len(b), mode))
+    if ok and consumed is not None:
+      if consumed != len(b):
+        out.fail("retry-after-failure", "%s: unpack() of the complete buffer after %d truncated attempts consumed / reported %r for %d octets" % (
+            kind, failed, consumed, len(b)), cls=kind, phase="unpack")
+      else:
+        _same_as_fresh(out, "retry-after-failure", kind, cat, tgt, b, mode,
+                       "unpack() of the complete buffer after %d truncated attempts" % failed, phase="unpack")
+  # ---- pack: make it fail, repair, retry on the same object
+  if kind == "ofp_match":
+    return
+  src = G.build(frag)
+  _pack_of(kind, src, mode)
+  attempts = []
+  try:
+    ints = R.int_fields(kind)
+  except R.RefError:
+    ints = []                       # nx_match: no scalar fields
+  names = [n for n, _ in ints if n not in _NO_NULL and hasattr(src, n) and isinstance(getattr(src, n), int)]
+  for n in ([names[0], names[-1]] if len(names) > 1 else names):
+    attempts.append(("field", n))
+  if isinstance(getattr(src, "actions", None), list):
+    attempts.append(("action", None))
+  for how, name in attempts:
+    o = G.build(frag)
+    if how == "field":
+      saved = getattr(o, name)
+      setattr(o, name, None)
+    else:
+      o.actions.append(_of.ofp_action_output())          # port not given yet: cannot be packed
+    raised = False
+    try:
+      _pack_of(kind, o, mode)
+    except Exception as e:
+      if _in_harness(e):
+        raise
+      raised = True
+    if how == "field":
+      setattr(o, name, saved)
+    else:
+      o.actions.pop()
+    out.label("retry:pack-%s-%s" % (how, "failed-first" if raised else "did-not-fail"))
+    what = "pack() after a first pack() that %s (%s)" % ("raised" if raised else "did not raise",
+                                                         "field %s was None" % name if how == "field" else "an action without port")
+    ok, b2 = _try(out, "retry-after-failure:pack", lambda: _pack_of(kind, o, mode))
+    if not ok:
+      continue
+    problems = []
+    if b2 != b:
+      problems.append("bytes differ from the first-time encoding: %s" % _hexdiff(b2, b))
+    ok, l2 = _try(out, "retry-after-failure:len", lambda: len(o))
+    if ok and l2 != len(b):
+      problems.append("len() is %d for %d octets" % (l2, len(b)))
+    ok, eq = _try(out, "eq", lambda: ((o == src), (o != src)))
+    if ok and eq != (True, False):
+      problems.append("compares (==, !=) = %s to an object built and packed without the failure" % (eq,))
+    if problems:
+      out.fail("retry-after-failure", "%s, %s: %s" % (kind, what, "; ".join(problems)), cls=kind, phase="pack")
+
+
 def _check_constant(out, case):
   """The numeric codes the library exports under the specification's names are the specification's."""
   name = case["const"]
@@ -673,6 +866,8 @@ def run_case(case):
   try:
     if "const" in case:
       _check_constant(out, case)
+    elif "dirty" in case:
+      _check_pair(out, case)
     elif "then" in case:
       _check_change(out, case)
     else:
@@ -689,7 +884,7 @@ _TRAIL = b"\x01\x00\x00\x08\x00\x00\x00\x01\xff\xff\xff"   # a hello and three s
 
 
 def _case(frag, pre=_PRE, trail=_TRAIL, **kw):
-  c = {"frag": frag, "pre": pre, "trail": trail}
+  c = {"frag": frag, "pre": pre, "trail": trail, "retry": True}
   c.update(kw)
   return c
 
@@ -1036,13 +1231,64 @@ def enum_change(tier):
           set={"body": {"k": "ofp_aggregate_stats", "f": {"flow_count": 2}}})
 
 
+def enum_pairs(tier):
+  """Ordered pairs (dirty object, bytes to decode into it) of every kind: same size and different sizes."""
+  pools = {}
+  for g in (enum_grid, enum_match, enum_nicira) if _NICIRA else (enum_grid, enum_match):
+    for c in g(tier):
+      fr = c.get("frag")
+      if fr is None or "then" in c or fr["k"] == "nxm_entry" or (fr["k"] == "ofp_match" and c.get("mode") == "flow_mod"):
+        continue
+      pools.setdefault(fr["k"], []).append(fr)
+  # equal-size pairs whose difference lies only in a nested body (a stale cache stays silent unless compared)
+  m1 = {"dl_type": 0x0800, "nw_proto": 6, "tp_dst": 80}
+  m2 = {"dl_type": 0x0800, "nw_proto": 17, "tp_dst": 53}
+  same_size = [
+    ({"k": "ofp_port_stats_request", "f": {"port_no": 1}}, {"k": "ofp_port_stats_request", "f": {"port_no": 2}}),
+    ({"k": "ofp_queue_stats_request", "f": {"port_no": 3, "queue_id": 7}}, {"k": "ofp_queue_stats_request", "f": {"port_no": 4, "queue_id": 9}}),
+    ({"k": "ofp_flow_stats_request", "f": {"match": m1}}, {"k": "ofp_flow_stats_request", "f": {"match": m2, "table_id": 1}}),
+    ({"k": "ofp_aggregate_stats_request", "f": {"match": m1, "out_port": 4}}, {"k": "ofp_flow_stats_request", "f": {"match": m2}}),
+    ({"k": "ofp_vendor_stats_generic", "f": {"vendor": 0x2320, "data": b"abcd"}}, {"k": "ofp_vendor_stats_generic", "f": {"vendor": 0x2320, "data": b"wxyz"}}),
+  ]
+  for x, y in same_size:
+    fx = {"k": "ofp_stats_request", "f": {"xid": 11, "body": x, "type": R.stats_type_of(x["k"], False)}}
+    fy = {"k": "ofp_stats_request", "f": {"xid": 12, "body": y, "type": R.stats_type_of(y["k"], False)}}
+    yield {"dirty": fx, "frag": fy, "pre": b""}
+    yield {"dirty": fy, "frag": fx, "pre": _PRE}
+  ps = lambda p: {"k": "ofp_port_stats", "f": {"port_no": p, "rx_packets": p}}
+  for x, y in (([ps(1)], [ps(2)]), ([ps(1), ps(2)], [ps(3), ps(4)]),
+               ({"k": "ofp_aggregate_stats", "f": {"flow_count": 1}}, {"k": "ofp_aggregate_stats", "f": {"flow_count": 2}})):
+    yield {"dirty": {"k": "ofp_stats_reply", "f": {"xid": 1, "body": x}}, "frag": {"k": "ofp_stats_reply", "f": {"xid": 2, "body": y}}, "pre": b""}
+  for kind in sorted(pools):
+    by_size, order = {}, []
+    for fr in pools[kind]:
+      try:
+        w = G.wire(fr)
+      except (R.RefError, ValueError, KeyError):
+        continue
+      lst = by_size.setdefault(len(w), [])
+      if len(lst) < 2 and all(x[1] != w for x in lst):
+        lst.append((fr, w))
+    sizes = sorted(by_size)
+    cap = 8 if kind in ("ofp_stats_request", "ofp_stats_reply") else 3
+    if len(sizes) > cap:
+      step = (len(sizes) - 1) / float(cap - 1)
+      sizes = sorted({sizes[int(round(i * step))] for i in range(cap)})
+    pool = [x[0] for sz in sizes for x in by_size[sz]]
+    for fa in pool:
+      for fb in pool:
+        yield {"dirty": fa, "frag": fb, "pre": b"" if (len(pool) % 2) else _PRE}
+        if kind == "ofp_match":
+          yield {"dirty": fa, "frag": fb, "pre": b"", "mode": "flow_mod"}
+
+
 def enum_constants(tier):
   for name in sorted(R.SPEC_CONSTANTS):
     yield {"const": name}
 
 
 def _all_enum(tier):
-  for g in (enum_constants, enum_grid, enum_match, enum_limits, enum_change) + ((enum_nicira,) if _NICIRA else ()):
+  for g in (enum_constants, enum_grid, enum_match, enum_limits, enum_change, enum_pairs) + ((enum_nicira,) if _NICIRA else ()):
     for c in g(tier):
       yield c
 
@@ -1054,8 +1300,9 @@ def _ctx_bytes():
 
 
 def _wrap(frag_strategy, **fixed):
-  return st.tuples(frag_strategy, _ctx_bytes(), st.one_of(st.just(b""), st.just(_TRAIL), st.binary(max_size=24))).map(
-      lambda t: dict({"frag": t[0], "pre": t[1], "trail": t[2]}, **fixed))
+  return st.tuples(frag_strategy, _ctx_bytes(), st.one_of(st.just(b""), st.just(_TRAIL), st.binary(max_size=24)),
+                   st.booleans()).map(
+      lambda t: dict({"frag": t[0], "pre": t[1], "trail": t[2], "retry": t[3]}, **fixed))
 
 
 def _strategy_messages(tier):
@@ -1076,8 +1323,8 @@ def _strategy_parts(tier):
 
 def _strategy_match(tier):
   return st.tuples(st.booleans().flatmap(lambda c: G.match(consistent=c)), st.sampled_from(["plain", "flow_mod"]),
-                   _ctx_bytes(), _ctx_bytes()).map(
-      lambda t: {"frag": {"k": "ofp_match", "f": t[0]}, "mode": t[1], "pre": t[2], "trail": t[3]})
+                   _ctx_bytes(), _ctx_bytes(), st.booleans()).map(
+      lambda t: {"frag": {"k": "ofp_match", "f": t[0]}, "mode": t[1], "pre": t[2], "trail": t[3], "retry": t[4]})
 
 
 def _strategy_nx(tier):
@@ -1088,15 +1335,49 @@ def _strategy_nx(tier):
   return st.sampled_from(["msg"] * 3 + ["act"] * 4 + ["ent", "mt"]).flatmap(table.get)
 
 
+def _strategy_pairs(tier):
+  """(dirty object, object whose bytes are decoded into it): two independent draws of the same kind."""
+  def two(one):
+    return st.tuples(one, one, st.sampled_from([b"", _PRE])).map(lambda t: {"dirty": t[0], "frag": t[1], "pre": t[2]})
+  per_kind = []
+  for k in G.OF10_MESSAGE_KINDS:
+    per_kind.append((k, lambda k=k: G.message("any", safe=False, kinds=[k])))
+  for k in G.OF10_ACTION_KINDS:
+    per_kind.append((k, lambda k=k: G.action(kinds=[k])))
+  for k in G.STATS_REQUEST_KINDS:
+    per_kind.append((k, lambda k=k: G.stats_request_body(safe=False, generic=True, kinds=[k])))
+  for k in G.STATS_REPLY_KINDS:
+    per_kind.append((k, lambda k=k: G.stats_reply_entry(k)))
+  for k in ("ofp_queue_prop_min_rate", "ofp_queue_prop_none", "ofp_queue_prop_generic"):
+    per_kind.append((k, lambda k=k: G.queue_prop(safe=False, kinds=[k])))
+  per_kind.append(("ofp_packet_queue", lambda: G.packet_queue(safe=False).map(lambda f: {"k": "ofp_packet_queue", "f": f})))
+  per_kind.append(("ofp_phy_port", lambda: G.phy_port().map(lambda f: {"k": "ofp_phy_port", "f": f})))
+  per_kind.append(("ofp_match", lambda: G.match(consistent=True).map(lambda f: {"k": "ofp_match", "f": f})))
+  if _NICIRA:
+    for k in G.NX_MESSAGE_KINDS:
+      per_kind.append((k, lambda k=k: G.nx_message(kinds=[k])))
+    for k in G.NX_ACTION_KINDS:
+      per_kind.append((k, lambda k=k: G.nx_action(kinds=[k])))
+    per_kind.append(("nx_match", lambda: G.nx_match_entries().map(lambda e: {"k": "nx_match", "f": {"entries": e}})))
+  # the containers with the most internal state get extra weight
+  heavy = ["ofp_stats_request", "ofp_stats_reply", "ofp_flow_mod", "ofp_packet_out", "ofp_flow_mod_table_id", "nx_flow_mod",
+           "nxt_packet_in", "nx_action_learn", "ofp_queue_get_config_reply", "ofp_features_reply"]
+  table = dict(per_kind)
+  names = [k for k, _ in per_kind] + [k for k in heavy if k in table] * 4
+  return st.sampled_from(names).flatmap(lambda k: two(table[k]()))
+
+
 def plan(tier):
   # thorough: 50 x the quick volume, with longer lists (C01_THOROUGH_SCALE overrides the factor while developing)
   k = 1 if tier == "quick" else int(os.environ.get("C01_THOROUGH_SCALE", "50"))
+  sh = 8 if tier == "quick" else 16        # process start-up (pox + hypothesis import) is a third of the quick tier's cost
   drivers = [
     Enum("grid", lambda: _all_enum(tier), shards=16),
-    Hyp("generated-messages", lambda: _strategy_messages(tier), examples=4000 * k, shards=16),
-    Hyp("generated-parts", lambda: _strategy_parts(tier), examples=2400 * k, shards=16),
-    Hyp("generated-match", lambda: _strategy_match(tier), examples=1200 * k, shards=16),
+    Hyp("generated-messages", lambda: _strategy_messages(tier), examples=3200 * k, shards=sh),
+    Hyp("generated-parts", lambda: _strategy_parts(tier), examples=2000 * k, shards=sh),
+    Hyp("generated-match", lambda: _strategy_match(tier), examples=1000 * k, shards=sh),
   ]
   if _NICIRA:
-    drivers.append(Hyp("generated-nicira", lambda: _strategy_nx(tier), examples=2400 * k, shards=16))
+    drivers.append(Hyp("generated-nicira", lambda: _strategy_nx(tier), examples=2000 * k, shards=sh))
+  drivers.append(Hyp("generated-pairs", lambda: _strategy_pairs(tier), examples=1200 * k, shards=sh))
   return drivers
